@@ -18,7 +18,9 @@ const char* SIGMA_T[] = { "[", "]", "{", "}", ",", ":", "\"a\"", "\"b\"", "1", "
 const char* PIECES[] = { "a", "\\\"", "\\\\", "\\/", "\\b", "\\n", "\\u0041", "\\u00e9", "\\u20AC", "\\uD83D\\uDE00", "\\uD83D", "\\uDE00",
                          "\\uD83D\\u0041", "\\u00G1", "\\u12", "\\u", "\\", "\\x", "\x01", "\x1f", "\xc3\xa9", "\xc3", "\xff", "\\u0000",
                          "\"", "\\uDBFF\\uDFFF", "\\ud800\\udc00", "\xf0\x9f\x98\x80", "\xed\xa0\x80",
-                         "\\u\x80\x80\x80\x80", "\\u00\xc3\xa9", "\\uD83D\\u\xff\xfe\x80\xbf", "\\u\xe9" "041", "\\u004\xb1" };
+                         "\\u\x80\x80\x80\x80", "\\u00\xc3\xa9", "\\uD83D\\u\xff\xfe\x80\xbf", "\\u\xe9" "041", "\\u004\xb1",
+                         // raw UTF-8 of the last plane and of noncharacters (valid in JSON), control bytes where hex digits belong (0x10..0x19 become '0'..'9' when bit 0x20 is set)
+                         "\xf4\x8f\xbf\xbf", "\xf4\x80\x80\x80", "\xef\xbf\xbe", "\\uFFFE", "\\u00\x14" "1", "\\u\x10\x11\x12\x13" };
 const int NPIECES = sizeof PIECES / sizeof *PIECES;
 
 std::string nest_bytes(int family, long d) {
